@@ -7,7 +7,7 @@ A scenario = site (abstract URLs 1..U with host, kind, links, flags) + options +
 import copy
 
 HOSTS = ['a.test', 'b.test', 'c.test']
-IPS = {'a.test': '10.0.0.1', 'b.test': '10.0.0.2', 'c.test': '10.0.0.3'}
+IPS = {'a.test': '10.0.0.1', 'b.test': '10.0.0.2', 'c.test': '10.0.0.3', 'f.test': '10.0.0.3'}
 
 DEFAULT_OPTS = dict(recursive=1, level=0, pagereq=0, spanhosts=0, strong=1, tries=2, maxredir=3, robots=0, auth=0, sitemaps=0, ua='',
                     tags='', noparent=0, retryconn=0, retrydns=0)
@@ -26,6 +26,20 @@ def scenario(name, urls, opts=None, N=1, start=(1,), robots=None, benign=1, spli
     o.update(opts or {})
     return dict(name=name, urls=urls, opts=o, N=N, start=list(start), robots=robots or {}, benign=benign,
                 split=split, dburi=dburi)
+
+
+def ftp_scenario(name, N=1):
+    """A recursive FTP crawl (scripted FTP server of drivers/errorflow_exec.py): / holds a.txt and sub/, /sub/ holds b.txt
+    and c.txt.  For the model a directory is a page whose links are its entries; LIST / RETR are the requests."""
+    urls = [U(1, host='f.test', path='/', links=[2, 3]), U(2, host='f.test', path='/a.txt'),
+            U(3, host='f.test', path='/sub/', links=[4, 5]), U(4, host='f.test', path='/sub/b.txt'),
+            U(5, host='f.test', path='/sub/c.txt')]
+    scn = scenario(name, urls, dict(tries=1), N=N)
+    f = '-rw-r--r-- 1 ftp ftp 3 Jan 01  2020 %s\r\n'
+    scn['ftp'] = dict(files={'a.txt': 'aaa', 'b.txt': 'bbb', 'c.txt': 'ccc'}, dirs=['sub'],
+                      listings={'/': 'drwxr-xr-x 2 ftp ftp 4096 Jan 01  2020 sub\r\n' + f % 'a.txt',
+                                '/sub/': f % 'b.txt' + f % 'c.txt'})
+    return scn
 
 
 def hosts_of(scn):
@@ -305,6 +319,8 @@ def c03_catalogue(quick):
     # (the two extra leaves keep the queue busy while the long path is walked)
     lv = [U(1, links=[2, 3, 7, 8]), U(2, links=[4]), U(3, links=[5]), U(5, links=[4]), U(4, links=[6]), U(6), U(7), U(8)]
     out.append(scenario('crash-level-two-paths', lv, dict(level=3), N=1))
+    # a recursive FTP crawl: the entries of a directory listing are discovered URLs like the links of a page
+    out.append(ftp_scenario('crash-ftp-tree-N1'))
     sm = sitemap_sites()
     out.append(scenario('crash-sitemaps-skipped-start', sm['skipped'], dict(sitemaps=1), N=1))
     # the start URL ends without a document (404 / repeated 5xx): its implicit children are still owed
